@@ -186,6 +186,8 @@ class Target:
         # rounding-noise twin: every finite log-likelihood value is perturbed by amp*h(x), h in [-1,1] a fixed hash of the point - what the rounding of
         # (L + c) does to L when |c| >> |L| (amp = ulp(c)/2), without any shift
         self.noise = spec.get("noise")
+        self.vec_out = spec.get("vec_out")
+        self._bufs = {}
         self.corr = spec.get("corr")
         if self.corr is not None:
             self.cmu = np.array(self.corr["mu"], dtype=float)
@@ -299,6 +301,18 @@ class Target:
         self.n_points += len(X)
         out = np.array([self._maybe_dead(self.logl_pure(row), k0 + i) for i, row in enumerate(X)])
         self.n_neginf += int(np.sum(np.isneginf(out)))
+        if self.vec_out:
+            # a user model that writes into a preallocated output array (compiled / GPU code with out=...) and returns that same array on every call -
+            # correct values at the time of return, overwritten by the next call; "readonly": a read-only view of such a workspace
+            buf = self._bufs.get(len(out))
+            if buf is None:
+                buf = self._bufs[len(out)] = np.empty(len(out))
+            buf[:] = out
+            if self.vec_out == "readonly":
+                v = buf.view()
+                v.setflags(write=False)
+                return v
+            return buf
         return out
 
     # -- oracles ----------------------------------------------------------------------
